@@ -188,6 +188,22 @@ theorem aux_runSchedule_flatten (t : Nat) (ext : List Stream) (sch : Schedule) (
   | nil => rfl
   | cons sg rest ih => simp [List.foldl_cons, ih, runNodes_append]
 
+/-- the executable check the driver applies to the real partition is the hypothesis of
+    `sched_refines_denot` -/
+theorem aux_wfFromB_iff (D : List Nat) (ns : List Node) : wfFromB D ns = true ↔ WFrom D ns := by
+  induction ns generalizing D with
+  | nil => simp [wfFromB, WFrom]
+  | cons n ns ih =>
+    simp only [wfFromB, WFrom, Bool.and_eq_true, Bool.not_eq_true', List.all_eq_true, ih]
+    constructor
+    · rintro ⟨⟨h1, h2⟩, h3⟩
+      exact ⟨by simpa using h1, fun r hr => by simpa using h2 r hr, h3⟩
+    · rintro ⟨h1, h2, h3⟩
+      exact ⟨⟨by simpa using h1, fun r hr => by simpa using h2 r hr⟩, h3⟩
+
+theorem aux_runScheduleB_eq (t : Nat) (ext : List Stream) (sch : Schedule) (σ : States) :
+    runScheduleB t ext sch σ = runSchedule t ext sch σ := rfl
+
 /-- two well-formed evaluation orders of the same nodes compute the same tick -/
 theorem aux_order_independent (t : Nat) (ext : List Stream) (ns ns' : List Node) (σ : States)
     (hwf : WF ns) (hwf' : WF ns') (hperm : ns.Perm ns') (i : Nat) :
